@@ -24,6 +24,30 @@ CLAIMED = {
         note="Assumes Go's init-before-use guarantee; user action code / Scanner / Context out of scope; read-only allowlist for stdlib callees; placeholder tables have the shape of real tables.",
         technique="static effect analysis (global-derived address taint on go/ssa) over the instantiated templates",
         design="§4 C17, §3 E1/E4"),
+    "C05": dict(
+        level="other",
+        text="The resolution rule is decided on the code that implements it: the four ResolveConflict methods are interpreted abstractly in every world (dynamic type of the competing action x order of production indices) and must implement the stated table; on the extracted table the checker proves commutativity, associativity and 'max under Shift > Reduce i > Reduce j', so the per-state fold (whose body is decided row by row, R05.3) selects shift-if-present-else-earliest-production for any number of competitors in any item order. A test samples a few grammars; the table covers every combination.",
+        note="Assumes the item sets are the canonical LR(1) sets (C02, not decided) and that two different shifts never compete on one symbol. The 'consequently the parser's verdict...' clause is not decided. Trusted: go/ssa, checker/sx.go.",
+        technique="static analysis: finite-world abstract interpretation of SSA (decision-table extraction) + algebraic check of the extracted table",
+        design="§4 C05, §3 E2/E3"),
+    "C08": dict(
+        level="other",
+        text="Decided on the generated Scan for all grammars and inputs at once: the lexer template is instantiated (plain and debug) and its prologue, loop body and epilogue are interpreted abstractly in every world (end of input / rune class x automaton verdict x exhausted x verdict so far); each row must equal the transfer table written from the statement (positions advance exactly for kept runes incl. the one an INVALID token swallows; start triple captured at scan start and ignore restart; cursor returned to end; Lit = src[start:end]; EOF sticky). Induction over rows gives exact positions and tiling.",
+        note="Assumes utf8.DecodeRune's contract and the table-shape facts R01.3/R01.4 (C01). Trusted: go/ssa of the instantiated template, checker/sx.go.",
+        technique="static analysis: transfer-table extraction by abstract interpretation of the instantiated lexer template's SSA",
+        design="§4 C08, Appendix A.1"),
+    "C16": dict(
+        level="other",
+        text="State re-initialisation decided structurally on the generated code: the set of Lexer fields Scan can store to must be restored by Reset to NewLexer's constants; Parse's prologue must be Reset, Scan, store nextToken before the loop; Reset = stack.reset + push(0,nil); stack.reset truncates every stack field; every other Parser field is Context (never written) or never read. So each Parse / each scan after Reset starts from a fresh object's state regardless of history.",
+        note="popN's slice aliasing by user actions is outside the generated code and not decided. Trusted: go/ssa, checker/sx.go.",
+        technique="static analysis: field store/load sets and prologue event order on the SSA of the instantiated templates",
+        design="§4 C16"),
+    "C18": dict(
+        level="proof",
+        text="Loop-invariant proof discharged mechanically: one iteration of AddRange's loop is interpreted abstractly (slice as a window with the three mutators) in every ordering-with-gaps of from,to,class.From,class.To; obligations O1-O4 (pieces sorted/disjoint/non-empty, union preserved, no straddling, cursor/from advance) must hold in every world, O5 on loop-carried variables; plus initialisation, exit, insertRange = insert-at, AddLexTNode dispatch, Item.match = class ⊆ range. The small-model property of difference constraints makes the finite enumeration complete for all rune values.",
+        note="Trusted: go/ssa, the interpreter and window model, the small-model bound (offsets in the code are ±1, K=3 quick / 5 thorough), rune range (to+1 cannot overflow).",
+        technique="static analysis: inductive invariant discharged by finite-world abstract interpretation over orderings with gaps",
+        design="§4 C18, §3 E2/E3"),
 }
 
 NA_REASON_PENDING = "check not built yet in this round (design in DESIGN.md §4); no claim is made until the rule set exists and passes its mutants"
